@@ -1,0 +1,7 @@
+//go:build verif
+
+package state
+
+// TokenTransferBatchSize under the verif build tag: batches of a few entries,
+// so that simulated accounts with tens of transfers cross them.
+const TokenTransferBatchSize = 3
